@@ -1256,6 +1256,11 @@ func (c *Ctx) RuleIncludeName() *Result {
 				names[v] = true
 			}
 			edges(call.Call.Args[0], 0)
+			// (a') the name as given, opened without a directory in front of it, is relative to wherever the tool was
+			// started: that is only right for a name known to be absolute
+			if !c.openNameQualified(call, call.Call.Args[0], fn, 0) {
+				problems = append(problems, "the include name is opened as it is, without the include or exclude directory in front of it and without being known to be absolute: a relative name is looked up in the directory the tool was started from first, and a file of that name there is parsed instead of the include file")
+			}
 			var derivedOK func(v ssa.Value, d int) bool
 			derivedOK = func(v ssa.Value, d int) bool {
 				if d > 4 {
@@ -1785,4 +1790,68 @@ func (c *Ctx) RulePatternPin(names ...string) *Result {
 		}
 	}
 	return res
+}
+
+// containsJoin: v is a path joined below a directory, or a merge of values one of which is.
+func containsJoin(v ssa.Value, seen map[ssa.Value]bool) bool {
+	v = stripConv(v)
+	if seen[v] {
+		return false
+	}
+	seen[v] = true
+	switch x := v.(type) {
+	case *ssa.Phi:
+		for _, e := range x.Edges {
+			if containsJoin(e, seen) {
+				return true
+			}
+		}
+	case *ssa.Call:
+		f := staticCallee(&x.Call)
+		return isFn(f, "path", "Join") || isFn(f, "path/filepath", "Join")
+	}
+	return false
+}
+
+// openNameQualified: the name handed to the open at site is joined below a directory, or known to be
+// absolute there; a name that is a parameter of a wrapper around the open is judged at the callers.
+func (c *Ctx) openNameQualified(site ssa.Instruction, name ssa.Value, fn *ssa.Function, depth int) bool {
+	raw := stripConv(name)
+	if containsJoin(raw, map[ssa.Value]bool{}) {
+		return true
+	}
+	isAbs := func(cond ssa.Value, val bool) bool {
+		t, ok := cond.(*ssa.Call)
+		if !ok || !val || len(t.Call.Args) != 1 {
+			return false
+		}
+		f := staticCallee(&t.Call)
+		return (isFn(f, "path/filepath", "IsAbs") || isFn(f, "path", "IsAbs")) && sameEntry(raw, t.Call.Args[0])
+	}
+	if c.guardedByEdges(site, isAbs) {
+		return true
+	}
+	if par, ok := raw.(*ssa.Parameter); ok && depth < 2 {
+		pi := paramIndex(fn, par)
+		n := 0
+		for _, e := range c.Graph().In[fn] {
+			cc := callCommon(e.Site)
+			if cc == nil || staticFn(cc) != fn || pi < 0 || pi >= len(cc.Args) || !c.liveFn(e.Caller) {
+				continue
+			}
+			// only wrappers around the open are followed: the function that receives the include name itself
+			// (it appends the extension and searches the directories) is where the judgement is made
+			n++
+			if !c.openNameQualified(e.Site, cc.Args[pi], e.Caller, depth+1) {
+				return false
+			}
+		}
+		return n > 0 && depth+1 <= 2 && isOpenWrapper(fn)
+	}
+	return false
+}
+
+// isOpenWrapper: a small function that hands its string parameter straight to os.Open.
+func isOpenWrapper(fn *ssa.Function) bool {
+	return len(fn.Blocks) <= 3
 }
